@@ -81,14 +81,14 @@ fn modes_for(s: &Subj) -> Vec<Mode> {
 }
 
 fn case_of(subj: impl Strategy<Value = Subj>) -> impl Strategy<Value = Case> {
-    (subj, any::<u32>(), opt(), hops(), prop::bool::weighted(0.25), enclosing()).prop_map(|(subj, mi, opt, hops, as_map, enclosing)| {
+    (subj, any::<u32>(), opt(), hops(), prop::bool::weighted(0.25), enclosing(), prop::bool::weighted(0.4)).prop_map(|(subj, mi, opt, hops, as_map, enclosing, inspect_false)| {
         let modes = modes_for(&subj);
         let mode = modes[pick(mi, modes.len())];
         let opt = match &subj {
             Subj::Wk(Wk::LvlOpt(_)) | Subj::Wk(Wk::TraceIdOpt(_)) | Subj::Wk(Wk::SpanIdOpt(_)) => Opt::Plain,
             _ => opt,
         };
-        Case { subj, mode, opt, hops, as_map, emit_macro: false, sinks: false, enclosing, dbg_macro: false, stacked: None }
+        Case { subj, mode, opt, hops, as_map, emit_macro: false, sinks: false, enclosing, dbg_macro: false, stacked: None, inspect_false }
     })
 }
 
@@ -127,7 +127,7 @@ fn dbg_macro_case() -> impl Strategy<Value = Case> {
         5 => structured(),
         2 => chain().prop_map(Subj::Err),
     ];
-    (subj, any::<u32>(), opt(), hops(), enclosing()).prop_map(|(subj, mi, opt, hops, enclosing)| {
+    (subj, any::<u32>(), opt(), hops(), enclosing(), prop::bool::weighted(0.4)).prop_map(|(subj, mi, opt, hops, enclosing, inspect_false)| {
         let modes: &[Mode] = match &subj {
             Subj::F32(_) => &[Default, Default, Display, DisplayI, Debug, DebugI, Sval, SvalI, Serde, SerdeI],
             Subj::Str(_) => &[Default, Default, Display, DisplayI, Debug, DebugI, Value, ValueI, Sval, SvalI, Serde, SerdeI, Error],
@@ -136,7 +136,7 @@ fn dbg_macro_case() -> impl Strategy<Value = Case> {
             _ => &[Default, Default, Display, DisplayI, Debug, DebugI, Value, Value, ValueI, Sval, SvalI, Serde, SerdeI],
         };
         let mode = modes[pick(mi, modes.len())];
-        Case { subj, mode, opt, hops, as_map: false, emit_macro: false, sinks: false, enclosing, dbg_macro: true, stacked: None }
+        Case { subj, mode, opt, hops, as_map: false, emit_macro: false, sinks: false, enclosing, dbg_macro: true, stacked: None, inspect_false }
     })
 }
 
@@ -153,7 +153,7 @@ fn stacked_case() -> impl Strategy<Value = Case> {
         let first = pick(i, set.len());
         // a different attribute for the last position
         let last = (first + 1 + pick(j, set.len() - 1)) % set.len();
-        Case { subj, mode: set[last], opt: Opt::Plain, hops, as_map: false, emit_macro, sinks: false, enclosing: obs::Enclosing::None, dbg_macro: false, stacked: Some(set[first]) }
+        Case { subj, mode: set[last], opt: Opt::Plain, hops, as_map: false, emit_macro, sinks: false, enclosing: obs::Enclosing::None, dbg_macro: false, stacked: Some(set[first]), inspect_false: false }
     })
 }
 
@@ -178,7 +178,7 @@ fn sink_case() -> impl Strategy<Value = Case> {
             _ => &[Default, Default, Default, Value, Display, Debug, Sval, Serde],
         };
         let mode = modes[pick(mi, modes.len())];
-        Case { subj, mode, opt, hops: Vec::new(), as_map: false, emit_macro: true, sinks: true, enclosing: obs::Enclosing::None, dbg_macro: false, stacked: None }
+        Case { subj, mode, opt, hops: Vec::new(), as_map: false, emit_macro: true, sinks: true, enclosing: obs::Enclosing::None, dbg_macro: false, stacked: None, inspect_false: false }
     })
 }
 
@@ -319,6 +319,7 @@ fn main() {
         s.require("site:dbg-macro-with-attribute", 2000);
         s.require("site:dbg-macro-no-attribute", 500);
         s.require("site:stacked-attributes", 2000);
+        s.require("attr:inspect-false", 5000);
         s.gen("dbg-macro", s.n(40_000, 1_200_000), dbg_macro_case, sites::check);
         s.gen("stacked-attributes", s.n(24_000, 700_000), stacked_case, sites::check);
 
